@@ -388,6 +388,50 @@ def closure_problems(db, enum_vectors=None, check_consecutive=True):
                 if f is not None and f["class"] != sowner[si]:
                     probs.append("make_seq %d of type %d: %s %d belongs to class %d"
                                  % (si, sowner[si], g, s[g], f["class"]))
+    # every make_seq belongs to exactly one type, every non-global element to exactly one
+    for si in ms:
+        if si not in sowner:
+            probs.append("make_seq %d is listed by no type" % si)
+    for ei, e in el.items():
+        if not (e["flags"] & 1) and ei not in owner:          # F_global
+            probs.append("element %d (%s) is not global and is listed by no type" % (ei, e["scoped_name"]))
+
+    def bases_of(ti, seen=None):
+        seen = seen if seen is not None else set()
+        if ti in seen or ti not in ty:
+            return seen
+        seen.add(ti)
+        for d in ty[ti]["derivations"]:
+            bases_of(d["base"], seen)
+        return seen
+    # an element's accessor functions belong to the type that lists it, or to one of its bases
+    for ei, e in el.items():
+        if ei not in owner:
+            continue
+        ok_classes = bases_of(owner[ei])
+        for slot in ELEMENT_FN_SLOTS:
+            f = fns.get(e[slot])
+            if f is not None and f["class"] not in ok_classes:
+                probs.append("element %d (%s) of type %d: %s %d belongs to class %d"
+                             % (ei, e["scoped_name"], owner[ei], slot, e[slot], f["class"]))
+
+    # a wrapper's `this` parameter is (a pointer to) the class of its function
+    def strip(ti, depth=0):
+        t = ty.get(ti)
+        while t is not None and (t["flags"] & F_wrapped) and depth < 8:
+            ti = t["wrapped_type"]
+            t = ty.get(ti)
+            depth += 1
+        return ti
+    for wi, w in wr.items():
+        f = fns.get(w["function"])
+        if f is None or f["class"] == 0:
+            continue
+        for prm in w["parameters"]:
+            if prm["flags"] & PF_is_this and prm["type"] != 0:
+                if strip(prm["type"]) != f["class"]:
+                    probs.append("wrapper %d of function %d (%s): `this` has type %d, the function's class is %d"
+                                 % (wi, w["function"], f["scoped_name"], strip(prm["type"]), f["class"]))
     # --- wrapper names (the symbols the code must define): pairwise distinct identifiers
     wn = {}
     for wi, w in wr.items():
